@@ -3,7 +3,7 @@
    Model/C05_Angvec.v of tr2angvec's general path (trlog general branch as repaired by /repo 84bd1d7: angle from
    atan2(|vex((R-R')/2)|, (tr R - 1)/2)), tied to the implementation by the float correspondence on rotations by
    1e-6 .. pi - 1e-6.  The identity / half-turn / tiny-angle paths are measured by the oracle only. *)
-From Coq Require Import Reals ZArith Lra Lia Psatz.
+From Coq Require Import Reals ZArith Lra Lia Psatz Nsatz.
 From SM Require Import Base.Ops Base.Lin Base.RInst Base.RLin Model.C05_Trig Model.C05_Angvec.
 From SMgen Require Import Consts_C05 Traces_C05.
 Open Scope R_scope.
@@ -39,24 +39,15 @@ Print Assumptions C05_angvec_right_inverse.
 Example C05_angvec_nonvacuous : SO3 (rotz_cs Rops 0 1) /\ 0 < st2 (rotz_cs Rops 0 1).
 Proof. split; [apply SO3_rotz; ring|]. unfold st2. lin_simpl. lra. Qed.
 
-(* the extracted pair determines the angle: it is the rotation angle of Rodrigues' formula, not merely some right inverse *)
+(* LEFT inverse too on this path: extraction recovers the angle and the axis the rotation was built from (traced angvec2r) *)
 Theorem C05_angvec_recovers_angle : forall (th : R) (u : V3 R), 0 < th < PI -> normsq3 Rops u = 1 ->
-  let '(t, a0, a1, a2) := m_tr2angvec_general Rops (rodrigues_ref th u) in t = th /\ (a0, a1, a2) = u.
+  let '(u0,u1,u2) := u in
+  m_tr2angvec_general Rops (tr_angvec2r Rops th u) = (th, u0, u1, u2).
 Proof.
-  intros th u Hth Hu. destruct u as [[u0 u1] u2]. autounfold with smlin in Hu. sm_simpl.
-  assert (Hs : 0 < sin th) by (apply sin_gt_0; lra).
-  unfold m_tr2angvec_general, angvec_general, skewpart, vex_py, norm_py, trc, rodrigues_ref. lin_simpl.
-  set (s := sin th) in *. set (c := cos th) in *.
-  assert (Hcs : c*c + s*s = 1) by (unfold c, s; pose proof (sin2_cos2 th) as Q; unfold Rsqr in Q; lra).
-  match goal with |- context[sqrt ?e] => replace e with (s*s) by (clear - Hu; nsatz) end.
-  rewrite sqrt_square by lra.
-  match goal with |- context[atan2 s ?e] => replace e with c by (clear - Hu; apply Rmult_eq_reg_r with 2; [|lra]; field_simplify; nsatz) end.
-  assert (Eth : atan2 s c = th).
-  { destruct (cs_unit_atan2 c s Hcs) as [E1 E2]. destruct (atan2_pos_range s c Hs) as [P1 P2].
-    rewrite <- (acos_cos th) by lra. rewrite <- (acos_cos (atan2 s c)) by lra. rewrite E1. reflexivity. }
-  rewrite Eth.
-  match goal with |- context[sqrt ?e] => replace e with (th*th) by (clear - Hu Hs; apply Rmult_eq_reg_r with (s*s); [|nra]; field_simplify; [|lra..]; nsatz) end.
-  rewrite sqrt_square by lra.
-  split; [reflexivity|]. tuple_eq ltac:(field; lra).
+  intros th u Hth Hu. rewrite C05c_angvec2r_is_rodrigues by (rewrite Hu; lra).
+  unfold norm3. rewrite Hu. cbn [sqrt_ Rops]. rewrite sqrt_1.
+  pose proof (angvec_general_recovers th u Hth Hu) as A. destruct u as [[u0 u1] u2].
+  replace (vscale3 Rops (/ 1) (u0, u1, u2)) with (u0, u1, u2) by (autounfold with smlin; sm_simpl; tuple_eq ltac:(field)).
+  exact A.
 Qed.
 Print Assumptions C05_angvec_recovers_angle.
